@@ -423,7 +423,11 @@ class PDFStandardSecurityHandler:
         return result[:n]
 
     def authenticate(self, password: str) -> Optional[bytes]:
-        password_bytes = password.encode("latin1")
+        try:
+            password_bytes = password.encode("latin1")
+        except UnicodeEncodeError:
+            # cannot be the password of a document of these revisions
+            return None
         key = self.authenticate_user_password(password_bytes)
         if key is None:
             key = self.authenticate_owner_password(password_bytes)
